@@ -487,7 +487,11 @@ def run_correspondence(rep: Report, drv, cases, impl, model_req, compare, oracle
                         rep.tie_broken(opname, "correspondence", d, case=c, expected=(r.get("err") if "err" in r else None), observed=pub)
         buf.clear()
 
+    t_stage = time.time()
     for c in cases:
+        if getattr(rep, "stage_deadline", None) and time.time() - t_stage > rep.stage_deadline:
+            rep.count("deepening:stage-time-box-reached:" + opname)      # time-boxed pass of the deepened search (check.py)
+            break
         # snapshot: generators may reuse and later mutate the objects they yield, and the oracle / replay of a batch runs after
         # the generator has moved on; the snapshot is what the implementation, the model, the oracle and the replay file all see
         c = _freeze(c)
